@@ -27,6 +27,10 @@ Check (C09_need_refines_name_partial : forall fl n t r h,
   forallb (fun p => acyclic (snd p)) fl = true -> acyclic t = true ->
   runN fl Good n t = (r, h) -> r <> OutOfFuel -> r <> Err InfiniteRec ->
   exists m, run fl m [] t = r).
+Check (C09_need_extract_refines_name_partial : forall fl n t path r h,
+  forallb (fun p => acyclic (snd p)) fl = true -> acyclic t = true ->
+  extractN fl Good n t path = (r, h) -> r <> OutOfFuel -> r <> Err InfiniteRec ->
+  exists m, extract fl m [] t path = r).
 Check (C09_need_wrongcell_refuted : exists t, acyclic t = true /\ ~ refines_on [] WrongCell t).
 Check (C09_need_callerenv_refuted : exists t, acyclic t = true /\ ~ refines_on [] CallerEnv t).
 (* the definitions the statements unfold to *)
